@@ -671,6 +671,8 @@ def validate_and_classify(run: core.Run, traces: list[dict], shards=12):
             wit = {"case": t["case"], "event_index": l, "act": ev["act"], "last": ev["last"], "store_after": ev["store"],
                    "ridx_after": ev["ridx"], "aliens": ev["aliens"]}
             if tag == "VERDICT":
+                if t["case"].get("ssp") == "dotrel" and prop == "C06":
+                    dev = [*dev, "F21"]     # the finding's signature is this very spelling of the store path
                 run.verdict(prop, clause, dev, wit, replay={"module": "objectstore", "case": t["case"]})
             else:
                 key = (clause, json.dumps(ev["act"], sort_keys=True))
@@ -840,6 +842,11 @@ def check_C06(run: core.Run, replay=None):
                 # a store keyed by what a cloud reports about the file (hash_name "etag" / "checksum": the default of stores on
                 # s3, gs, http): gc never hashes, the names are just names
                 cases[-1]["alg"] = ("etag", "checksum")[len(cases) % 8 // 4]
+        # F21 (open): the store path spelled "./store" - dvc_objects lists nothing there, gc removes nothing
+        for c in [c for c in gen["gc"] if not c["ro"] and not c["dry"] and not c["foreign"] and c["cs"] == c["s"]][:: 97][:16]:
+            op = {"op": "Gc", "s": c["s"], "used": c["used"], "foreign": [], "ord": c["ord"], "shallow": c["shallow"],
+                  "dry": False, "ro": False, "cs": c["cs"], "cro": False}
+            cases.append({"init": c["init"], "ops": [op], "kind": "gc-dotrel", "ssp": "dotrel"})
         cases += sim_cases("ObjectStore_sim_gc.cfg", 150 if quick else 1500, 10, run.seed + 5)
         run.extra["generated_cases"] = {k: len(v) for k, v in gen.items()}
     traces = execute(cases, run.seed)
